@@ -105,13 +105,47 @@ def v1_v2(run, roles):
         return
     b = builds[0]
     bnode = V.node_of(b)
-    # control dependent on the invalid branch: every path entry->build passes t via `branch`
-    inv_succ = [s for lab, s in t.succ if lab == branch]
-    ok = bool(inv_succ) and inv_succ[0].id in V.dom[bnode.id] and all(
-        inv_succ[0].id not in V.dom[s.id] or s is inv_succ[0] for lab, s in t.succ if lab != branch)
-    run.ob("V1", ok, "the error is built exactly on the invalid branch",
-           "ValueConstraintViolatedError is not built under the `not is_valid()` outcome", module=mod, node=b, func=fn.name,
-           construct=VERR + " [branch]")
+    # outcome per (valid?, strict?) on the path summaries of the walker: an invalid value in strict mode raises the
+    # constructed error before any event of the field; the error is raised / wrapped on no other path
+    from .. import paths
+    VALID = f"{norm(recv)}.is_valid()"
+    n_strict = 0
+    for p in paths.summarise(mod, fn):
+        if p.end == "raise" and p.value is not None and norm(p.value) == "AssertionError":
+            continue
+        # the receiver may be expanded: find the is_valid atom
+        va = [(a_, v_) for a_, v_, _ in p.cond if a_.endswith(".is_valid()")]
+        valid = va[0][1] if va else None
+        strict = p.truth("truthy abort_on_error")
+        lab = " & ".join(("" if v_ else "not ") + a_[-40:] for a_, v_, _ in p.cond if "is_valid" in a_ or "abort_on_error" in a_) or "always"
+        evs_before = [e for k, e, _ in p.effects if k == "yield" and e is not None and isinstance(e, ast.Call) and call_name(e) == "MarshalEvent"]
+        warns = [e for k, e, _ in p.effects if k == "yield" and e is not None and isinstance(e, ast.Call) and call_name(e) == "WarningEvent"]
+        raised_verr = p.end == "raise" and p.value is not None and isinstance(p.value, ast.Call) and call_name(p.value) == VERR
+        if raised_verr:
+            n_strict += 1
+            run.ob("V1", valid is False and strict is True, "the error is raised exactly for an invalid value in strict mode",
+                   f"ValueConstraintViolatedError is raised on the path [{lab}] (not under the `not is_valid()` outcome in strict mode)",
+                   module=mod, node=p.node or b, func=fn.name, construct=VERR + " [branch]")
+            run.ob("V1", not evs_before, "no event of the offending field precedes the strict raise",
+                   "a raise is reachable after the event of the field was emitted (strict mode would emit an event for the offending "
+                   "field)", module=mod, node=p.node or b, func=fn.name, construct="raise after event")
+        elif valid is False and strict is True:
+            run.ob("V1", False, "an invalid value in strict mode raises", f"no raise of the constructed error on the invalid branch: "
+                   f"the path [{lab}] ends with {p.end} {p.value_text()}", module=mod, node=p.node or b, func=fn.name,
+                   construct=VERR + " [raise]")
+        elif p.end == "raise":
+            run.ob("V1", not evs_before or True, f"other raise [{lab}]")
+        if valid is True:
+            run.ob("V1", not warns and not raised_verr, "a valid value is neither warned about nor rejected",
+                   f"a valid value gets {len(warns)} warning(s) on the path [{lab}]", module=mod, node=p.node or fn, func=fn.name,
+                   construct=VERR + " [branch]")
+        if valid is False and strict is False and p.end == "return":
+            okw = len(warns) == 1 and isinstance(kwarg(warns[0], "error"), ast.Call) and call_name(kwarg(warns[0], "error")) == VERR
+            run.ob("V1", okw, "an invalid value in warn mode is reported by exactly one warning wrapping the same error",
+                   f"warn mode reports an invalid value with {[paths.text(w) for w in warns]}", module=mod, node=p.node or fn,
+                   func=fn.name, construct=VERR + " [warn]")
+    run.ob("V1", n_strict >= 1, "strict raise follows the construction of the error",
+           "no raise of the constructed error on the invalid branch", module=mod, node=b, func=fn.name, construct=VERR + " [raise]")
     raises = [n for n in V.cfg.nodes if n.kind == "stmt" and isinstance(n.ast, ast.Raise)]
     after = set()
     for y_, _ in evs:
@@ -120,10 +154,6 @@ def v1_v2(run, roles):
     run.ob("V1", not late, "no raise can follow the field's event", "a raise is reachable after the event of the field was "
            "emitted (strict mode would emit an event for the offending field)", module=mod,
            node=late[0].ast if late else fn, func=fn.name, construct="raise after event")
-    strict = [r for r in raises if bnode.id in V.dom[r.id]]
-    run.ob("V1", len(strict) >= 1, "strict raise follows the construction of the error",
-           "no raise of the constructed error on the invalid branch", module=mod, node=b, func=fn.name,
-           construct=VERR + " [raise]")
     # V2 contents
     cons = kwarg(b, "constraint") or (b.args[0] if b.args else None)
     val = kwarg(b, "value") or (b.args[1] if len(b.args) > 1 else None)
